@@ -92,6 +92,28 @@ def check_group(rep, M, L, inp):
         err = coherence_error(A)
         if err:
             rep.fail("automaton_views", f"{nm}: {err}", inp); return False
+    # the same automata with integer generator labels 0..rank-1 (the raw output of the generator module, and the automaton of a
+    # group given by a diagram whose nodes are numbered from 0): words are tuples of integers
+    raw_geo = coxeter_automaton.generate_automaton_coxeter_matrix(M, False)
+    raw_slx = coxeter_automaton.generate_automaton_coxeter_matrix(M, True)
+    for n in range(0, min(L, 4) + 1):
+        for w in itertools.product(range(rank), repeat=n):
+            red, canon = orc.info(w)
+            if raw_geo.accepts(w) != red:
+                rep.fail("geodesic_accepts_iff_reduced", f"integer-labelled automaton, word {w}: reduced={red}", {**inp, "word": list(w), "labels": "integers"}); return False
+            if raw_slx.accepts(w) != (red and canon == w):
+                rep.fail("shortlex_accepts_exactly_the_least_reduced_word", f"integer-labelled automaton, word {w}", {**inp, "word": list(w), "labels": "integers"}); return False
+    if rank >= 2:
+        dia = [(i, j, M[i][j]) for i in range(rank) for j in range(i + 1, rank)]
+        Gd = coxeter.CoxeterGroup(diagram=dia)
+        dgeo = Gd.automaton(shortlex=False)
+        pos = {g: k for k, g in enumerate(Gd.ordered_gens)}
+        if sorted(pos) == list(range(rank)):
+            for n in range(0, min(L, 4) + 1):
+                for w in itertools.product(range(rank), repeat=n):
+                    red, _ = orc.info(w)
+                    if dgeo.accepts(w) != red:
+                        rep.fail("geodesic_accepts_iff_reduced", f"group given by a diagram on the nodes 0..{rank - 1}, word {w}: reduced={red}", {**inp, "word": list(w), "labels": "diagram nodes"}); return False
     even_geo = G.automaton(shortlex=False, even_length=True)
     even_slx = G.automaton(shortlex=True, even_length=True)
     can = G.canonical_representation()
